@@ -1,5 +1,8 @@
 """C14 - the complexity limit is a sound gate: over-limit operations execute nothing."""
+import os
+import shutil
 from collections import Counter
+from concurrent.futures import ThreadPoolExecutor
 from lib import vf
 
 MAXINT = 9223372036854775807
@@ -16,8 +19,12 @@ def run(ctx):
         "ExecutableSchema.Exec is the only entry to resolvers (graphql/executor/executor.go DispatchOperation is its only caller); 'no resolver runs' is observed as 'Exec is not called'",
         "the walker model is hand-written and tied by differential runs; safeAdd/maxInt are re-translated from source on every run (Gen/SafeAdd.lean)",
     ]
-    ok_extract = ctx.extract("SafeAdd")
-    proved = ok_extract and ctx.prove(props=["GqlgenVerif.Props.C14"])
+    ctx.assumptions += [
+        "generated servers: the binding of schema fields to Go fields is the one DECLARED by the project the harness writes (an explicit @goField(name:) / fieldName / a name equal up to case and underscores, each matching exactly one field or method of the hand-written model); that gqlgen's binder resolves these declarations to that Go field is observed (the entries of the generated ComplexityRoot are compared with the declared ones), not modelled",
+        "the template part of the generated Complexity() switch (case labels per group, the entry called, `break` on a nil function) is a hand-written model (Model/ComplexitySwitch.lean) over the regenerated UniqueFields, tied by direct calls of the really generated Complexity() for every (type, field) of every generated project; argument unmarshalling (field_*_args) is executed, not modelled",
+    ]
+    ok_extract = ctx.extract("SafeAdd", "UniqueFields")
+    proved = ok_extract and ctx.prove(props=["GqlgenVerif.Props.C14", "GqlgenVerif.Props.C14Gen"])
     if ok_extract and not proved:
         ctx.cov["proof_failure"] = ctx.proof_failure
     have_model = ok_extract and getattr(ctx, "driver_ok", False)
@@ -218,6 +225,10 @@ def run(ctx):
                            "replay": "Calculate on `%s` / `%s` with {%s} returned %s / %s; the definition (and the Lean witness) gives 9 / 8" % (r[4], r[5], r[1], r[2], r[3])},
                           no_failing_input=False)
 
+    # ---- the GENERATED Complexity() switch: projects generated now from /repo's templates, really executed
+    gstats = run_generated(ctx, have_model, branch, nontriv)
+    ndiv += gstats["divergences"]
+
     # ---- a proof that no longer checks: look for a failing input, else say so
     if ok_extract and not proved:
         if not any(not nf for _, nf in ctx.violations):
@@ -236,17 +247,235 @@ def run(ctx):
         return xs[i] if len(xs) > i else None
 
     ctx.cov.update({
-        "evaluations": len(sas) + len(calcs) + len(gates) + len(bads) + len(monos) + 1,
+        "evaluations": len(sas) + len(calcs) + len(gates) + len(bads) + len(monos) + 1 + gstats["evaluations"],
+        "generated_servers": gstats,
         "distinct_nontrivial": len(nontriv),
         "rule": "safeAdd: exhaustive 20x20 boundary grid (min, min+1, +-max/2, -1..3, 2^31, 2^32, max/2-1..max/2+2, max-2..max) + seeded pairs around the overflow boundary; "
                 "Calculate: 22 directed operations x 18+8 directed custom tables (+ custom pinned to children's cost -1/0/+1) + seeded random operations over 2 probe schemas + seeded random schemas "
                 "(fragments nested and reused, inline fragments with/without type condition, interfaces incl. one without implementors, unions, aliases, Int arguments literal/null/variable/absent with defaults, "
                 "@skip/@include, __schema/__type/__typename, mutations) x random custom tables; gate: every directed case at limit c-1/c/c+1 and random cases at c-1/c/c+1 + extreme limits, "
                 "through executor.New, handler.New+transport.POST and handler.New+transport.GET (operationName given / omitted, multi-operation documents); seeded random schemas; metamorphic pairs (one selection added at the top level); malformed: mutated operations. Non-trivial = distinct case reaching a branch beyond default costs "
-                "(custom used/ignored/negative/equal, saturation, interface, fragment, variable, __Schema skip), every safeAdd pair and every gate case",
+                "(custom used/ignored/negative/equal, saturation, interface, fragment, variable, __Schema skip), every safeAdd pair and every gate case; "
+                "generated servers: directed projects of corpus/C14/genprojects.txt + seeded random projects (2..4 hand-written models, groups of 1..3 schema fields bound to one Go struct field / method through "
+                "@goField(name:), fieldName configuration or names equal up to case/underscore, members shuffled so the by-name member is first/middle/last, forced resolvers next to a shared name, scalar/object-typed/method-with-arguments groups), "
+                "each generated in both layouts (generated!.gotpl single file; root_.gotpl follow-schema + function syntax): Complexity() asked directly for every (type, field) incl. interfaces/unions/__Type/unknown names, "
+                "every field of every hand-written model x one table per shared entry, corpus operations x corpus tables, seeded random operations x random ComplexityRoot tables, the gate at c-1/c/c+1 with counting resolvers",
         "input_distribution": dict(branch),
         "kinds": dict(kinds),
         "correspondence_divergences": ndiv,
         "samples": [x for x in [pick(sas, 150), pick(calcs, 40), pick(calcs, len(calcs) // 2), pick(gates, 7), pick(bads, 0)] if x],
         "model_available": bool(have_model),
     })
+
+
+def run_generated(ctx, have_model, branch, nontriv):
+    """The generated `executableSchema.Complexity` switch in the tie: gqlgen projects whose schema fields are bound
+    many-to-one to Go fields are generated NOW with /repo's templates, built and executed (go/harness/c14/genproj.go,
+    genrun.go.txt). Implementation = the generated code; Model = Model/ComplexitySwitch.lean over the regenerated
+    UniqueFields; Spec = the declared binding (Spec.entryOf / Spec.boundCustom, and the harness's own expansion fed to
+    the math/big reference)."""
+    st = {"projects": 0, "evaluations": 0, "divergences": 0, "switch_calls": 0, "shared_entry_calls": 0, "calculate": 0, "gate": 0,
+          "shared_entries": 0, "entries": 0}
+    root = os.path.join(vf.GO, "genout", "c14")
+    shutil.rmtree(root, ignore_errors=True)
+    os.makedirs(root)
+    corpus = os.path.join(vf.VERIF, "corpus", "C14", "genprojects.txt")
+    rc, so, se = ctx.harness("c14", ["-mode", "genproj", "-out", root, "-corpus", corpus, "-tier", ctx.tier, "-seed", ctx.seed])
+    if rc != 0:
+        raise RuntimeError("harness genproj failed: " + se[-2000:])
+    exp = {}
+    order = []
+    for l in so.split("\n"):
+        if not l:
+            continue
+        r = l.split("\t")
+        if r[0] == "gproj":
+            exp[r[1]] = {"objs": r[2], "rows": []}
+            order.append(r[1])
+        elif r[0] in ("gcx", "gcalc", "ggate"):
+            exp[r[1]]["rows"].append(r)
+    gen_bin = os.path.join(vf.CACHE, "gen")
+    ctx.go_build("./gen", gen_bin)
+    env = vf.go_env()
+
+    def build_run(p):
+        d = os.path.join(root, p)
+        rc, so, se = vf.sh([gen_bin, "-dir", d, "-nomain"], cwd=vf.GO, env=env, timeout=900)
+        if rc != 0:
+            return p, "generate", (so + se)[-3000:]
+        rc, so, se = vf.sh(["go", "build", "-o", os.path.join(d, "run.bin"), "./genout/c14/%s/run" % p], cwd=vf.GO, env=env, timeout=900)
+        if rc != 0:
+            return p, "build", (so + se)[-3000:]
+        rc, so, se = vf.sh([os.path.join(d, "run.bin"), os.path.join(d, "cases.tsv")], cwd=d, env=env, timeout=900)
+        if rc != 0:
+            return p, "run", (so + se)[-3000:]
+        return p, "ok", so
+
+    outs = {}
+    with ThreadPoolExecutor(max_workers=8) as ex:
+        for p, stage, o in ex.map(build_run, order):
+            outs[p] = (stage, o)
+
+    def files(p):
+        d = os.path.join(root, p)
+        res = {}
+        for f in ("schema.graphql", "gqlgen.yml", "hand.go"):
+            try:
+                res[f] = open(os.path.join(d, f)).read()
+            except OSError:
+                pass
+        return res
+
+    def where(p):
+        return "generated server %s (go/genout/c14/%s: schema.graphql + gqlgen.yml + hand.go, generated now by api.Generate from /repo, layout %s)" % (
+            p, p, "follow-schema (root_.gotpl)" if p.endswith("f") else "single-file (generated!.gotpl)")
+
+    # ---- model side, one driver run; both layouts of a project share their lines
+    lines, idx = [], {}
+
+    def ask(line):
+        if line not in idx:
+            idx[line] = len(lines)
+            lines.append(line)
+        return idx[line]
+
+    jobs = []
+    for p in order:
+        stage, o = outs[p]
+        if stage != "ok":
+            continue
+        for r in exp[p]["rows"]:
+            if r[0] == "gcx":
+                jobs.append((p, r, ask("gencx %s %s %s" % (exp[p]["objs"], r[3], r[4]))))
+            elif r[0] == "gcalc":
+                jobs.append((p, r, ask("gencalc %s %s %s %s %s" % (r[4], r[5], r[3], r[7], r[8]))))
+            else:
+                jobs.append((p, r, None))
+    model = ctx.driver("c14", lines) if (have_model and lines) else None
+    if model is not None and len(model) != len(lines):
+        raise RuntimeError("driver returned %d lines for %d generated-server inputs" % (len(model), len(lines)))
+
+    reported = Counter()
+
+    def report(what, obj, failing):
+        st["divergences"] += 1
+        if reported[what] < 4:
+            reported[what] += 1
+            ctx.violation(obj, no_failing_input=not failing)
+
+    for p in order:
+        stage, o = outs[p]
+        st["projects"] += 1
+        if stage != "ok":
+            report("build", {"kind": "generation", "project": p, "stage": stage, "output": o[-3000:], "input": files(p),
+                             "shape": {"part": "generated-switch", "what": "build", "stage": stage},
+                             "replay": "%s: the project does not %s any more: %s" % (where(p), stage, o.strip().split("\n")[-1][:300] if o.strip() else "")}, False)
+    got = {}
+    for p in order:
+        stage, o = outs[p]
+        if stage != "ok":
+            continue
+        g = {"root": None}
+        for l in o.split("\n"):
+            r = l.split("\t")
+            if r[0] == "root":
+                g["root"] = sorted(x for x in r[1].split(" ") if x)
+            elif r[0] in ("cx", "calc", "gate"):
+                g[r[1]] = r
+        got[p] = g
+        # the entries of the generated ComplexityRoot are the declared Go fields, one per group
+        declared = {}
+        for r in exp[p]["rows"]:
+            if r[0] == "gcx" and r[5] != "-":
+                declared.setdefault(r[5], []).append(r[3] + "." + r[4])
+        st["entries"] += len(declared)
+        st["shared_entries"] += sum(1 for v in declared.values() if len(v) > 1)
+        if g["root"] != sorted(declared):
+            report("root", {"kind": "correspondence", "case_kind": "ComplexityRoot", "project": p, "impl": g["root"], "declared": sorted(declared), "input": files(p),
+                            "shape": {"part": "generated-switch", "what": "root"},
+                            "replay": "%s: the generated ComplexityRoot has entries %s; the declared binding has %s" % (
+                                where(p), sorted(set(g["root"] or []) - set(declared)), sorted(set(declared) - set(g["root"] or [])))}, False)
+
+    last_spec = {}
+    for p, r, li in jobs:
+        g = got[p].get(r[2])
+        m = model[li] if (model is not None and li is not None) else None
+        if m == "bad-op":
+            raise RuntimeError("driver could not parse generated-server case: " + lines[li][:400])
+        st["evaluations"] += 1
+        if g is None:
+            report("missing", {"kind": "correspondence", "project": p, "case": r[:3], "shape": {"part": "generated-switch", "what": "missing"},
+                               "replay": "%s: the runner printed nothing for case %s" % (where(p), r[2])}, False)
+            continue
+        if r[0] == "gcx":
+            t, f, want = r[3], r[4], r[5]
+            impl, nilok = g[2], g[3]
+            mm, ms = (m.split(" ") + [None])[:2] if m is not None else (None, None)
+            st["switch_calls"] += 1
+            shared = want != "-" and sum(1 for x in exp[p]["rows"] if x[0] == "gcx" and x[5] == want) > 1
+            if shared:
+                st["shared_entry_calls"] += 1
+            branch["gen:switch:" + ("shared-entry" if shared else ("own-entry" if want != "-" else "no-entry"))] += 1
+            nontriv.add("gx%s|%s|%s" % (p, t, f))
+            if impl != want or nilok != "0" or (ms is not None and ms != want) or (mm is not None and mm != impl):
+                failing = impl != want or nilok != "0"
+                report("dispatch", {"kind": "correspondence", "case_kind": "generated Complexity()", "project": p, "type": t, "field": f,
+                                    "impl_entry_called": impl, "impl_ok_with_nil_root": nilok, "declared_entry": want, "model_switch": mm, "spec_binding": ms, "input": files(p),
+                                    "shape": {"part": "generated-switch", "what": "dispatch", "shared": shared},
+                                    "replay": "%s: executableSchema.Complexity(ctx, %r, %r, 7, args) with every ComplexityRoot function set called %s; the field is bound to %s" % (
+                                        where(p), t, f, impl if impl != "-" else "no function (returned 0,false: default cost)", want if want != "-" else "no entry")},
+                       failing)
+        elif r[0] == "gcalc":
+            sch, objs, ents, cus, vs, doc, oracle, tags, query = r[3:12]
+            impl = g[2]
+            mw, ms = (m.split(" ") + [None])[:2] if m is not None else (None, None)
+            spec = ms if ms is not None else oracle
+            last_spec[p] = spec
+            st["calculate"] += 1
+            for t in tags.split(","):
+                branch["gen:" + t] += 1
+            nontriv.add("gc%s|%s|%s|%s" % (p, ents, vs, doc))
+            if impl != spec or impl != oracle or (mw is not None and mw != impl):
+                failing = impl != spec or impl != oracle
+                report("calculate", {"kind": "correspondence", "case_kind": "Calculate on a generated server", "project": p, "query": query, "complexity_root": ents,
+                                     "customs_by_schema_field": cus, "vars": vs, "impl": impl, "model_walker_over_switch": mw, "spec": ms, "go_reference": oracle, "tags": tags,
+                                     "driver_line": lines[li] if li is not None else None, "input": files(p),
+                                     "shape": {"part": "generated-switch", "what": "calculate"},
+                                     "replay": "%s: complexity.Calculate on `%s` with ComplexityRoot {%s} and variables {%s} returned %s; the documented definition (each field costs what the function of its Go field says: {%s}) gives %s" % (
+                                         where(p), query, ents, vs, impl, cus, spec)}, failing)
+        else:
+            sch, objs, ents, cus, vs, doc, limit, oracle, query = r[3:12]
+            calls, code, stc, stl, hcalls, hcode, hstatus = g[2:9]
+            c = int(last_spec.get(p) or oracle)
+            if last_spec.get(p) is None or str(last_spec.get(p)) != oracle:
+                c = int(oracle)
+            lim = int(limit)
+            over = c > lim
+            st["gate"] += 1
+            branch["gen:gate:" + ("over-limit" if over else ("at-limit" if c == lim else "below-limit"))] += 1
+            nontriv.add("gg%s|%s|%s|%s|%s" % (p, ents, vs, doc, limit))
+            bad = []
+            if over:
+                if calls != "0" or hcalls != "0":
+                    bad.append("resolver-ran")
+                if code != "COMPLEXITY_LIMIT_EXCEEDED" or hcode != "COMPLEXITY_LIMIT_EXCEEDED":
+                    bad.append("not-rejected")
+            else:
+                if "COMPLEXITY_LIMIT_EXCEEDED" in (code, hcode):
+                    bad.append("rejected")
+                if code.startswith("panic"):
+                    bad.append("panic")
+            if stc != str(c):
+                bad.append("stats-complexity")
+            if stl != limit:
+                bad.append("stats-limit")
+            if bad:
+                report("gate", {"kind": "correspondence", "case_kind": "gate on a generated server", "project": p, "query": query, "complexity_root": ents, "customs_by_schema_field": cus,
+                                "vars": vs, "limit": limit, "complexity_by_definition": c, "differs": bad,
+                                "impl": {"executor": {"resolver_calls": calls, "code": code, "stats_complexity": stc, "stats_limit": stl},
+                                         "http": {"resolver_calls": hcalls, "code": hcode, "status": hstatus}}, "input": files(p),
+                                "shape": {"part": "generated-switch", "what": "gate", "class": "over-limit" if over else "within-limit", "differs": ",".join(bad)},
+                                "replay": "%s: operation `%s` with ComplexityRoot {%s} and variables {%s} has complexity %d; with FixedComplexityLimit(%s) the generated server ran %s resolver(s) (HTTP: %s), code %s (HTTP: %s), recorded complexity %s; expected %s" % (
+                                    where(p), query, ents, vs, c, limit, calls, hcalls, code, hcode, stc,
+                                    "no resolver and COMPLEXITY_LIMIT_EXCEEDED" if over else "no complexity rejection")}, True)
+    return st
